@@ -52,20 +52,31 @@ def build_family(family, tier):
         if p.returncode != 0:
             raise MachineryError("pgen failed: " + p.stderr[-2000:])
         try:
-            cargo_build(d, ["--release"], env={"CARGO_TARGET_DIR": TARGET_GEN})
+            cargo_build(d, ["--release", "--message-format=json"], env={"CARGO_TARGET_DIR": TARGET_GEN})
             break
         except MachineryError as e:
             out = getattr(e, 'full_output', str(e))
             new = {}
-            msg = None
+            # error diagnostics, attributed to the unit that contains their primary span (secondary spans and
+            # notes of a diagnostic can point into other programs of the batch crate)
             for line in out.splitlines():
-                m0 = re.match(r"^error(\[E\d+\])?: (.*)", line)
-                if m0:
-                    msg = m0.group(2)
-                m = re.search(r"--> (g_%s_%s_s\d+)/src/main.rs:(\d+):" % (family, tier), line)
-                if m:
+                if not line.startswith("{"):
+                    continue
+                try:
+                    jm = json.loads(line)
+                except ValueError:
+                    continue
+                if jm.get("reason") != "compiler-message" or jm.get("message", {}).get("level") != "error":
+                    continue
+                msg = jm["message"].get("message", "compile error")
+                for sp in jm["message"].get("spans", []):
+                    if not sp.get("is_primary"):
+                        continue
+                    m = re.search(r"(g_%s_%s_s\d+)/src/main.rs$" % (family, tier), sp.get("file_name", ""))
+                    if not m:
+                        continue
                     src = open(os.path.join(d, m.group(1), "src", "main.rs")).read().splitlines()
-                    ln = int(m.group(2))
+                    ln = int(sp.get("line_start", 0))
                     unit = None
                     for i in range(min(ln, len(src)) - 1, -1, -1):
                         mm = re.match(r"pub mod u(\d+)_v(\d+) \{", src[i])
@@ -73,7 +84,7 @@ def build_family(family, tier):
                             unit = int(mm.group(1))
                             break
                     if unit is not None and unit not in failures and unit not in new:
-                        new[unit] = (msg or "compile error") + " :: " + (src[ln - 1].strip() if ln - 1 < len(src) else "")
+                        new[unit] = msg + " :: " + (src[ln - 1].strip() if 0 < ln <= len(src) else "")
             if not new or attempt == 9:
                 raise
             failures.update(new)
